@@ -91,6 +91,8 @@ struct Args {
   bool itemwise = false;
   bool empty_batches = false;
   std::string in_file;   // open the input through the reader's file-name constructor instead of its stream constructor
+  std::string out_file;  // construct the writer through its file-name constructor instead of its stream constructor
+  std::string first_proto, first_fmt, first_file;  // a complete copy of another stream made in this process before the main one
 };
 
 template <class R, class W, class F>
@@ -116,10 +118,9 @@ int copy(Args const& a, std::istream& in, std::ostream& out, W& w, F f) {
 }
 }  // namespace
 
-static int run(Args const& a) {
+static int run(Args const& a, std::ostream& out) {
   std::ios::sync_with_stdio(false);
   std::istream& in = std::cin;
-  std::ostream& out = std::cout;
   if (a.out == "ndjson") out << std::unitbuf;
 '''
 
@@ -138,14 +139,27 @@ int main(int argc, char** argv) {
     else if (s == "--skip-close") a.skip_close = true;
     else if (s == "--empty-batches") a.empty_batches = true;
     else if (s == "--in-file" && i + 1 < argc) a.in_file = argv[++i];
+    else if (s == "--out-file" && i + 1 < argc) a.out_file = argv[++i];
+    else if (s == "--first" && i + 3 < argc) { a.first_proto = argv[++i]; a.first_fmt = argv[++i]; a.first_file = argv[++i]; }
     else if (s == "--bufs" && i + 1 < argc) {
       std::stringstream ss(argv[++i]); std::string tok;
       while (std::getline(ss, tok, ',')) a.bufs.push_back(std::stoull(tok));
     }
   }
   a.bufs.resize(64, 1);
+  if (!a.first_proto.empty()) {
+    Args f = a;
+    f.proto = a.first_proto; f.in = a.first_fmt; f.in_file = a.first_file; f.out_file.clear(); f.first_proto.clear(); f.version.clear(); f.empty_batches = false;
+    std::ostringstream sink;
+    try {
+      int rc = run(f, sink);
+      std::cerr << "DRIVER-FIRST: rc=" << rc << " bytes=" << sink.str().size() << "\n";
+    } catch (std::exception const& e) {
+      std::cerr << "DRIVER-FIRST: error " << e.what() << "\n";
+    }
+  }
   try {
-    return run(a);
+    return run(a, std::cout);
   } catch (std::exception const& e) {
     std::cout.flush();
     std::cerr << "DRIVER-ERROR: " << e.what() << "\n";
@@ -171,7 +185,7 @@ def driver_source(info: GenInfo) -> str:
                       % (meth, ety, ns, name, meth, ety, ns, name, meth, ns, name, meth, ety))
         eb.append("};\n")
     eb.append("}  // namespace\n")
-    head = head.replace("static int run(Args const& a) {", "".join(eb) + "static int run(Args const& a) {")
+    head = head.replace("static int run(Args const& a, std::ostream& out) {", "".join(eb) + "static int run(Args const& a, std::ostream& out) {")
     parts = [head]
     for name, nargs in info.protocols:
         call = "r.CopyTo(w" + "".join(", b.at(%d)" % i for i in range(nargs)) + ");"
@@ -180,15 +194,20 @@ def driver_source(info: GenInfo) -> str:
         parts.append('  if (a.proto == "%s") {\n' % name)
         parts.append('    if (a.out == "bin") {\n      %s::Version ver = %s::Version::Current;\n%s' % (ns, ns, vers))
         parts.append('      if (a.empty_batches) {\n        EB_%s w(out, ver);\n        if (a.in == "bin") return copy<%s::binary::%sReader>(a, in, out, w, %s);\n        return 64;\n      }\n' % (name, ns, name, lam))
-        parts.append('      %s::binary::%sWriter w(out, ver);\n' % (ns, name))
-        parts.append('      if (a.in == "bin") return copy<%s::binary::%sReader>(a, in, out, w, %s);\n' % (ns, name, lam))
-        if info.has_ndjson:
-            parts.append('      if (a.in == "ndjson") return copy<%s::ndjson::%sReader>(a, in, out, w, %s);\n' % (ns, name, lam))
+        for ctor, cond in (("a.out_file, ver", "!a.out_file.empty()"), ("out, ver", "true")):
+            parts.append('      if (%s) {\n        %s::binary::%sWriter w(%s);\n' % (cond, ns, name, ctor))
+            parts.append('        if (a.in == "bin") return copy<%s::binary::%sReader>(a, in, out, w, %s);\n' % (ns, name, lam))
+            if info.has_ndjson:
+                parts.append('        if (a.in == "ndjson") return copy<%s::ndjson::%sReader>(a, in, out, w, %s);\n' % (ns, name, lam))
+            parts.append('        return 64;\n      }\n')
         parts.append('    }\n')
         if info.has_ndjson:
-            parts.append('    if (a.out == "ndjson") {\n      %s::ndjson::%sWriter w(out);\n' % (ns, name))
-            parts.append('      if (a.in == "bin") return copy<%s::binary::%sReader>(a, in, out, w, %s);\n' % (ns, name, lam))
-            parts.append('      if (a.in == "ndjson") return copy<%s::ndjson::%sReader>(a, in, out, w, %s);\n' % (ns, name, lam))
+            parts.append('    if (a.out == "ndjson") {\n')
+            for ctor, cond in (("a.out_file", "!a.out_file.empty()"), ("out", "true")):
+                parts.append('      if (%s) {\n        %s::ndjson::%sWriter w(%s);\n' % (cond, ns, name, ctor))
+                parts.append('        if (a.in == "bin") return copy<%s::binary::%sReader>(a, in, out, w, %s);\n' % (ns, name, lam))
+                parts.append('        if (a.in == "ndjson") return copy<%s::ndjson::%sReader>(a, in, out, w, %s);\n' % (ns, name, lam))
+                parts.append('        return 64;\n      }\n')
             parts.append('    }\n')
         parts.append('  }\n')
     parts.append(DRIVER_TAIL)
